@@ -217,7 +217,8 @@ def _main_check(spec, tier, repo, seed, replay, scratch, t0, verbose):
     executions = sum(counters.get(k, 0) for k in cm.get("executions", ["executions"]))
     distinct = sum(counters.get(k, 0) for k in cm.get("distinct", ["distinct_outcomes"]))
 
-    if not replay:
+    # evidence describes /repo; a run against another tree (--repo, a scratch copy with a change applied) leaves it alone
+    if not replay and os.path.realpath(repo) == os.path.realpath(os.environ.get("VERIF_EVIDENCE_REPO", "/repo")):
         ev = {
             "property_id": prop,
             "tier": tier,
